@@ -475,19 +475,25 @@ func main() {
 	}
 	// F6 order of steps
 	{
+		fnChk := findFunc(core, "core", "checkFastForward")
+		orderChk := callOrder(fnChk, map[string]string{"checkFastForwardInput": ".structure", "CheckBlock": ".checkBlock", "frame.Hash": ".frameHashCompare", "checkTrustedSigner": ".trustedSigner"})
+		facts = append(facts, fact{"coreCheckSteps", "def coreCheckSteps : List FFStep := [" + strings.Join(orderChk, ", ") + "]", "core.go:checkFastForward", strings.Join(orderChk, " "), fnChk != nil})
 		fn := findFunc(core, "core", "fastForward")
-		order := callOrder(fn, map[string]string{"CheckBlock": ".checkBlock", "frame.Hash": ".frameHashCompare", "Reset": ".reset", "setPeers": ".setPeers"})
+		order := callOrder(fn, map[string]string{"checkFastForward": ".check", "CheckBlock": ".checkBlock", "frame.Hash": ".frameHashCompare", "Reset": ".reset", "setPeers": ".setPeers"})
 		facts = append(facts, fact{"coreFFSteps", "def coreFFSteps : List FFStep := [" + strings.Join(order, ", ") + "]", "core.go:fastForward", strings.Join(order, " "), fn != nil})
 		fn2 := findFunc(node, "Node", "fastForward")
-		order2 := callOrder(fn2, map[string]string{"Restore": ".restore", "fastForward": ".checkBlock"})
+		order2 := callOrder(fn2, map[string]string{"checkFastForward": ".check", "Restore": ".restore", "fastForward": ".coreFF"})
 		facts = append(facts, fact{"nodeFFSteps", "def nodeFFSteps : List FFStep := [" + strings.Join(order2, ", ") + "]", "node.go:fastForward", strings.Join(order2, " "), fn2 != nil})
 	}
-	// F7 which set CheckBlock is given in core.fastForward
+	// F7 which set CheckBlock is given, and which sets the trusted-signer check consults
 	{
 		set := "FFSet.unknown"
 		text := ""
-		if fn := findFunc(core, "core", "fastForward"); fn != nil {
-			// find `peerSet := <expr>` and the CheckBlock call's second argument
+		fn := findFunc(core, "core", "checkFastForward")
+		if fn == nil {
+			fn = findFunc(core, "core", "fastForward")
+		}
+		if fn != nil {
 			defs := map[string]string{}
 			ast.Inspect(fn, func(n ast.Node) bool {
 				if as, ok := n.(*ast.AssignStmt); ok && len(as.Lhs) == 1 && len(as.Rhs) == 1 {
@@ -508,7 +514,28 @@ func main() {
 				set = "FFSet.fromKnown"
 			}
 		}
-		facts = append(facts, fact{"ffCheckSet", "def ffCheckSet : FFSet := " + set, "core.go:fastForward", text, true})
+		facts = append(facts, fact{"ffCheckSet", "def ffCheckSet : FFSet := " + set, "core.go:checkFastForward", text, true})
+		srcs := []string{}
+		texts := []string{}
+		if ts := findFunc(core, "core", "checkTrustedSigner"); ts != nil {
+			ast.Inspect(ts, func(n ast.Node) bool {
+				if ix, ok := n.(*ast.IndexExpr); ok {
+					t := src(ix.X)
+					m := map[string]string{"c.peers.ByPubKey": ".peers", "c.genesisPeers.ByPubKey": ".genesis", "c.validators.ByPubKey": ".validators"}
+					if l, ok := m[t]; ok {
+						srcs = append(srcs, l)
+						texts = append(texts, t)
+					}
+				}
+				return true
+			})
+			// the function must end by refusing when no trusted signer verified
+			body := src(ts.Body)
+			if !strings.Contains(body, "block.Verify(s)") || !strings.HasSuffix(strings.TrimSpace(strings.TrimSuffix(strings.TrimSpace(body), "}")), `fmt.Errorf("Block is not signed by any known validator")`) {
+				srcs = nil
+			}
+		}
+		facts = append(facts, fact{"ffTrustedSets", "def ffTrustedSets : List TrustSrc := [" + strings.Join(srcs, ", ") + "]", "core.go:checkTrustedSigner", strings.Join(texts, " "), len(srcs) > 0})
 	}
 
 	// emit
